@@ -87,6 +87,68 @@ def classify_write_arg(f, a, wsl, nodevar):
     return [('bad', t)]
 
 
+def _local_defs(f):
+    """name -> list of values of its plain assignments in f"""
+    d = {}
+    for st in walk_no_nested(f):
+        if isinstance(st, ast.Assign) and len(st.targets) == 1 and isinstance(
+                st.targets[0], ast.Name):
+            d.setdefault(st.targets[0].id, []).append(st.value)
+        elif isinstance(st, (ast.AugAssign, ast.For)):
+            for y in ast.walk(st.target):
+                if isinstance(y, ast.Name):
+                    d.setdefault(y.id, []).append(None)
+    return d
+
+
+def _alternatives(f, a, wsl, keep=()):
+    """The expression with every local that is bound in several branches
+    ("opening = '(' ... opening = f'({head}'") replaced by each of its
+    definitions (bounded); locals holding white space and the names in
+    ``keep`` stay."""
+    from ..astutil import subst
+    defs = _local_defs(f)
+    names = [x.id for x in ast.walk(a) if isinstance(x, ast.Name)
+             and x.id not in wsl and x.id not in keep and x.id in defs
+             and all(v is not None for v in defs[x.id])
+             and not any(isinstance(y, ast.Call) and isinstance(
+                 y.func, ast.Attribute) and y.func.attr in ('pop', 'popleft')
+                 for v in defs[x.id] for y in ast.walk(v))]
+    names = list(dict.fromkeys(names))
+    if not names or len(names) > 3:
+        return [a]
+    import itertools
+    out = []
+    for combo in itertools.product(*[defs[n] for n in names]):
+        out.append(subst(a, dict(zip(names, combo))))
+        if len(out) > 8:
+            return [a]
+    return out
+
+
+def _path_subst(p, i, e, keep=()):
+    """``e`` with the locals assigned earlier on this path replaced by the
+    value of their last assignment before position i."""
+    from ..astutil import subst
+    env = {}
+    for n in p.nodes[:i]:
+        a = n.ast
+        if n.kind == 'stmt' and isinstance(a, ast.Assign) and len(
+                a.targets) == 1 and isinstance(a.targets[0], ast.Name) and \
+                a.targets[0].id not in keep and not any(
+                    isinstance(y, ast.Call) and isinstance(
+                        y.func, ast.Attribute)
+                    and y.func.attr in ('pop', 'popleft')
+                    for y in ast.walk(a.value)):
+            env[a.targets[0].id] = subst(a.value, env)
+        elif n.kind == 'stmt' and isinstance(a, (ast.AugAssign, ast.For)):
+            for y in ast.walk(a.target):
+                if isinstance(y, ast.Name):
+                    env.pop(y.id, None)
+    used = {x.id for x in ast.walk(e) if isinstance(x, ast.Name)} & set(env)
+    return subst(e, {k: env[k] for k in used}) if used else e
+
+
 def _popvar(loop, work):
     for st in ast.walk(loop):
         if isinstance(st, ast.Assign) and isinstance(
@@ -139,7 +201,9 @@ def rule_emitters(chk, prog, reader_ws):
                 chk.check('C07.R1', where, w, False, 'write with != 1 arg',
                           loc=m.loc(w))
                 continue
-            pcs = classify_write_arg(f, w.args[0], wsl, ex)
+            pcs = []
+            for alt in _alternatives(f, w.args[0], wsl, keep=(ex, )):
+                pcs.extend(classify_write_arg(f, alt, wsl, ex))
             bad = [p for p in pcs if p[0] == 'bad']
             chk.check('C07.R1', where, w, not bad,
                       f'leaf text is transformed on its way to the file: '
@@ -171,12 +235,16 @@ def rule_emitters(chk, prog, reader_ws):
             wr = [(i, n, c) for (i, n, c) in path_method_calls(
                 p, recv=filep, attr='write')]
             pieces = []
+            keep_ = tuple(wsl) + (ex, work)
             for (i, n, c) in wr:
-                for pc in classify_write_arg(f, c.args[0], wsl, ex):
+                for pc in classify_write_arg(
+                        f, _path_subst(p, i, c.args[0], keep_), wsl, ex):
                     pieces.append((i, pc))
             pushes = [(i, n, c) for (i, n, c) in path_method_calls(p)
                       if unparse(c.func.value) == work
                       and c.func.attr in ('append', 'extend')]
+            push_txt = {id(c): unparse(_path_subst(p, i, c, keep_))
+                        for (i, n, c) in pushes}
             is_leaf = (f'{ex}.is_leaf()', True) in facts
             not_leaf = (f'{ex}.is_leaf()', False) in facts
             sents = module_sentinels(m)
@@ -236,7 +304,7 @@ def rule_emitters(chk, prog, reader_ws):
                               'be traversed', loc=m.loc(loop),
                               nontrivial=True)
                     continue
-                txt = ' ; '.join(unparse(c) for (i, n, c) in pushes)
+                txt = ' ; '.join(push_txt[id(c)] for (i, n, c) in pushes)
                 all_children = f'reversed({ex}.data)' in txt
                 tail_children = f'reversed({ex}.data[1:])' in txt
                 head_written = any(pc[0] == 'head' for (_, pc) in pieces)
